@@ -4,6 +4,7 @@ import itertools
 from hypothesis import strategies as st
 
 from amaranth import Value
+from amaranth_soc import csr
 
 from vlib import gens, sim
 from vlib.common import Violation
@@ -42,7 +43,12 @@ def _spec(draw, tier):
     cycles = draw(st.lists(_cycle(w), min_size=n, max_size=n))
     return {"leaf": leaf, "cycles": cycles,
             # the Field object already created this many other actions; the action class is a trivial user subclass
-            "nth_create": draw(st.sampled_from([0, 0, 0, 1, 2])), "subclass": draw(st.sampled_from([False, False, True]))}
+            "nth_create": draw(st.sampled_from([0, 0, 0, 1, 2])), "subclass": draw(st.sampled_from([False, False, True])),
+            # the action sits in a register between a signed field below and an unsigned field above and is
+            # driven through the register's element port (the bus read of the register must show each
+            # field's read value in its own bits)
+            "in_reg": draw(st.one_of(st.none(), st.none(), st.fixed_dictionaries(
+                {"lo_w": st.integers(1, 5), "hi_w": st.integers(1, 9), "lo_init": st.integers(0, 31), "dseed": st.integers(0, 1 << 20)})))}
 
 
 def components_actions():
@@ -89,7 +95,24 @@ def check(spec, stats):
     if a in STORAGE:
         if init:
             stats.label("init_nonzero")
-    top = sim.wrap(act)
+    inreg = spec.get("in_reg")
+    if inreg:
+        from amaranth import signed, unsigned
+        from amaranth_soc.csr import action as _action
+        from vlib.csrmodel import hval
+        lo_w, hi_w = inreg["lo_w"], inreg["hi_w"]
+        lo_m, hi_m = (1 << lo_w) - 1, (1 << hi_w) - 1
+        lo_init = inreg["lo_init"] & lo_m
+        lo_signed = lo_init - (1 << lo_w) if lo_init >> (lo_w - 1) else lo_init
+        reg = csr.Register({"lo": csr.Field(_action.RW, signed(lo_w), init=lo_signed), "dut": field,
+                            "hi": csr.Field(_action.RW, unsigned(hi_w))}, access="rw")
+        act = reg.f.dut
+        elem = reg.element
+        side = [lo_init, 0]
+        stats.label("inside_register")
+        top = sim.wrap(reg)
+    else:
+        top = sim.wrap(act)
     port = act.port
     state = [init]
 
@@ -102,10 +125,17 @@ def check(spec, stats):
         for t, (w_stb, w_data, r_stb, hw, rdat) in enumerate(spec["cycles"]):
             w_data &= m; hw &= m; rdat &= m
             where = f"cycle {t} state={state[0]:#x} w_stb={int(w_stb)} w_data={w_data:#x} hw={hw:#x}"
-            ctx.set(port.w_stb, w_stb)
-            ctx.set(port.r_stb, r_stb)
-            if w:
-                ctx.set(Value.cast(port.w_data), w_data)
+            if inreg:
+                lo_wv, hi_wv = hval(inreg["dseed"], "lo", t, lo_w), hval(inreg["dseed"], "hi", t, hi_w)
+                ctx.set(elem.w_stb, w_stb)
+                ctx.set(elem.r_stb, r_stb)
+                ctx.set(elem.w_data, lo_wv | (w_data << lo_w) | (hi_wv << (lo_w + w)))
+            else:
+                ctx.set(port.w_stb, w_stb)
+                ctx.set(port.r_stb, r_stb)
+                if w:
+                    ctx.set(Value.cast(port.w_data), w_data)
+            exp_read = rdat if a == "R" else state[0] if a in STORAGE else 0
             if a == "R":
                 if w:
                     ctx.set(Value.cast(act.r_data), rdat)
@@ -143,6 +173,15 @@ def check(spec, stats):
             else:
                 if get(port.r_data) != 0:
                     raise Violation("C12/reserved/r_data", f"{where}: port.r_data={get(port.r_data):#x}")
+            if inreg:
+                want = side[0] | (exp_read << lo_w) | (side[1] << (lo_w + w))
+                got_e = ctx.get(elem.r_data)
+                if got_e != want:
+                    raise Violation("C12/register-read", f"{where}: register reads {got_e:#x}, its fields' read values are "
+                                    f"lo={side[0]:#x} ({lo_w} bits, signed) dut={exp_read:#x} ({w} bits) hi={side[1]:#x}: {want:#x}")
+                stats.label("negative_signed_field_below", bool(side[0] >> (lo_w - 1)))
+                if w_stb:
+                    side[0], side[1] = lo_wv, hi_wv
             await ctx.tick()
 
     sim.simulate(top, tb)
